@@ -264,4 +264,43 @@ def cschemaOf : String → Option (CSchema × CSchema)
   | "Response" => some (response prettyKeyW, response prettyKeyR)
   | _ => none
 
+/-! ## the codec's size limits against the messages honest nodes send
+
+`try_interval_replication` (ant-networking/src/cmd.rs) puts ALL of `record_addresses_ref()` — up to `MAX_RECORDS_COUNT`
+entries `(NetworkAddress::RecordKey(<32-byte key>), RecordType)` — into ONE `Cmd::Replicate`; the codec's writer has no size
+check, its reader cuts the stream at `REQUEST_SIZE_MAXIMUM`. -/
+
+def requestCap : Nat := requestSizeMaximum
+def responseCap : Nat := responseSizeMaximum
+
+/-- one advertised record: the key as the record store keeps it (`NetworkAddress::from_record_key`, 32 bytes) and a
+`RecordType::NonChunk(content hash)`; every byte is `b` (bytes `≥ 24` take two CBOR bytes inside the hash's array of ints) -/
+def fillEntry (b : Nat) : CTree :=
+  .tup [.nvar (nm "RecordKey") (.bytes (List.replicate 32 b)), .nvar (nm "NonChunk") (.tup (List.replicate 32 (.u b)))]
+
+/-- `Request::Cmd(Cmd::Replicate { holder: NetworkAddress::from_peer(self), keys })` advertising `n` such records -/
+def fillReplicate (n b : Nat) : CTree :=
+  .nvar (nm "Cmd") (.nvar (nm "Replicate") (.record [(nm "holder", .nvar (nm "PeerId") (.bytes (List.replicate 38 b))),
+    (nm "keys", .seq (List.replicate n (fillEntry b)))]))
+
+/-- bytes of one entry: `82`, `a1 69 "RecordKey" 58 20 <32>` (45), `a1 68 "NonChunk" 98 20 <32 ints>` (12 + 32 or 64) -/
+def entrySize (b : Nat) : Nat := if b < 24 then 90 else 122
+
+/-- the closed form of the written size: `a1 63 "Cmd" a1 69 "Replicate" a2 66 "holder" <48> 64 "keys"` (77 bytes), the array
+header of `n`, `n` entries -/
+def replicateRequestSize (n b : Nat) : Nat := 77 + (encodeArg 4 n).length + n * entrySize b
+
+/-- the largest number of worst-case (`b ≥ 24`) records whose advertisement still fits the request limit -/
+def replicateFits : Nat := (requestCap - 80) / 122
+
+/-- `Response::Query(QueryResponse::GetReplicatedRecord(Ok((NetworkAddress::RecordKey(""), <n bytes b>))))` -/
+def fillResponse (n b : Nat) : CTree :=
+  .nvar (nm "Query") (.nvar (nm "GetReplicatedRecord") (.nvar (nm "Ok") (.tup [.nvar (nm "RecordKey") (.bytes []),
+    .bytes (List.replicate n b)])))
+
+/-- everything of that response in front of the payload's own header (45 bytes) -/
+def responsePrefix : List Nat := (writeMsg (fillResponse 0 0)).dropLast
+
+def fillResponseSize (n : Nat) : Nat := 45 + (encodeArg 2 n).length + n
+
 end SafeNet.WireCbor
